@@ -224,6 +224,7 @@ func (c *Conn) ClosedByDUT() bool {
 
 // deliver appends bytes to the DUT's receive buffer (driver goroutine).
 func (c *Conn) deliver(b []byte) {
+	c.env.notePeerDelivery() // before any reader can react (fsmlog.go)
 	c.mu.Lock()
 	if c.closedDUT || c.rEOF {
 		c.mu.Unlock()
@@ -236,6 +237,7 @@ func (c *Conn) deliver(b []byte) {
 
 // peerClose closes the connection from the peer side (driver goroutine).
 func (c *Conn) peerClose(reset bool) {
+	c.env.notePeerClose()
 	c.mu.Lock()
 	if !c.closedDUT && !c.peerClosed {
 		c.peerClosedFirst = true // the neighbour ended this connection, not the DUT
